@@ -6,4 +6,4 @@ package flags
 
 // --status implies dry mode: the executor option list is built with WithDry(Dry || Status).
 //@ func (*flagsOption).ApplyToExecutor
-//@   site WithDry#1 requires arg0 == (Dry || Status)                                             [C12]
+//@   site WithDry#0 requires arg0 == (Dry || Status)                                             [C12]
